@@ -19,6 +19,7 @@ import EdzedModel.Persist
 import EdzedProofs.Persist
 import EdzedModel.Gen.TranslatedPersist
 import EdzedModel.Gen.TranslatedPersist2
+import EdzedModel.Gen.TranslatedCronCfg
 import Mathlib.Tactic.NormNum
 import Mathlib.Tactic.Linarith
 import Mathlib.Tactic.Ring
@@ -1542,5 +1543,40 @@ theorem translated_inputexp_on_enter_expired_is_model (sd : Data) :
 example : (persistInit TimeUnits.timePeriod (.ok ()) "<Input 'i'>" (Val.int 1) (Val.str "") (Val.flt (-3/2))).map
     (fun a => (a.persistent, a.sync_state, a.expiration)) = .ok (true, false, some 0) := by
   decide +kernel
+
+/-! ### `get_state()` of the cron clients (round ten, finding C06-uninitialised-cal-state-saved)
+
+`TimeDate.get_state` / `TimeSpan.get_state` are translated by tools/py2lean_cron_cfg.py together with the state of
+initialisation of the block (`tdGetStateOpt`, `tsGetStateOpt`: `none` = EdzedInvalidState).  The model's `getState`
+answers `none` for EVERY uninitialised block, hence `saveBlk` removes the entry and a restart initialises the block
+from its arguments.  The unrepaired methods had no guard: the generated definitions answered `some …` for an
+uninitialised block, the two theorems below did not hold, and run_forever saved a state the block never had. -/
+
+open Gen.TrCronCfg in
+/-- `get_state()` of an uninitialised TimeDate / TimeSpan raises, as the model's `getState` says of every kind -/
+theorem translated_croncfg_get_state_of_uninitialised_block_raises
+    {TA DA SA TI DI SI TL DL SL ε : Type} (P : CfgPrims TA DA SA TI DI SI TL DL SL ε)
+    (t : Option TI) (d : Option DI) (w : Option (List Int)) (x : SI) (i : Val) (dyn : Dyn) (h : dyn.inited = false) :
+    tdGetStateOpt P false t d w = none ∧ tsGetStateOpt P false x = none ∧ getState (.cal i) dyn = none := by
+  refine ⟨rfl, rfl, ?_⟩
+  simp [getState, h]
+
+open Gen.TrCronCfg in
+/-- … and they answer exactly when the model does: the translated methods are defined iff the block is initialised,
+    and then they are the translated `_export3` / `as_list()` of the stored configuration -/
+theorem translated_croncfg_get_state_defined_iff_model
+    {TA DA SA TI DI SI TL DL SL ε : Type} (P : CfgPrims TA DA SA TI DI SI TL DL SL ε)
+    (t : Option TI) (d : Option DI) (w : Option (List Int)) (x : SI) (i : Val) (dyn : Dyn) :
+    (tdGetStateOpt P dyn.inited t d w).isSome = (getState (.cal i) dyn).isSome ∧
+    (tsGetStateOpt P dyn.inited x).isSome = (getState (.cal i) dyn).isSome ∧
+    (dyn.inited = true → tdGetStateOpt P dyn.inited t d w = some (export3 P t d w) ∧
+      tsGetStateOpt P dyn.inited x = some (P.spanAsList x)) := by
+  cases h : dyn.inited <;> simp [tdGetStateOpt, tsGetStateOpt, tdGetState, tsGetState, getState, h]
+
+/-- consequence for the final save of `run_forever`: the entry of an uninitialised persistent block of ANY kind is
+    removed, never written -/
+theorem uninitialised_block_is_never_saved (s : Storage) (b : Blk) (hp : b.persistent = true)
+    (hi : b.dyn.inited = false) : saveBlk s b = s.erase b.key := by
+  simp [saveBlk, hp, getState, hi]
 
 end Edzed.TrTie
